@@ -94,6 +94,23 @@ def _chain(first, second_kind):
     return p
 
 
+def _chain_rev(first_kind):
+    """scale 0 = a double-producing scale, scale 1 = AdvancedAPI (no-op) reading scale 0: the output is what scale 0 produces"""
+    s, d, u = R._s, R._d, R._u
+    p = [u('NI_Number_Of_Scales', 2)]
+    if first_kind == 'Linear':
+        p += [s('NI_Scale[0]_Scale_Type', 'Linear'), d('NI_Scale[0]_Linear_Slope', 0.5), d('NI_Scale[0]_Linear_Y_Intercept', 1.25),
+              u('NI_Scale[0]_Linear_Input_Source', 0xFFFFFFFF)]
+    else:
+        p += [s('NI_Scale[0]_Scale_Type', 'Polynomial'), u('NI_Scale[0]_Polynomial_Coefficients_Size', 2),
+              d('NI_Scale[0]_Polynomial_Coefficients[0]', 1.0), d('NI_Scale[0]_Polynomial_Coefficients[1]', 2.0),
+              u('NI_Scale[0]_Polynomial_Input_Source', 0xFFFFFFFF)]
+    p += [s('NI_Scale[1]_Scale_Type', 'AdvancedAPI'), u('NI_Scale[1]_AdvancedAPI_Input_Source', 0)]
+    return p
+
+
+for _k in ('Linear', 'Polynomial'):
+    SCALINGS['%s>NoOp' % _k] = _chain_rev(_k)
 for _f in ('NoOp', 'AddRawRaw'):
     for _k in ('Linear', 'Thermocouple', 'Polynomial'):
         SCALINGS['%s>%s' % (_f, _k)] = _chain(_f, _k)
